@@ -61,7 +61,9 @@ def main():
     import tempfile, shutil
     workdir = tempfile.mkdtemp(prefix='ypsim-c18-')
     os.chdir(workdir)
-    for (pi, oi) in job['history']:
+    stats = {'par_pairs': 0, 'preemptions': 0, 'preemptions_in_compiler_py': 0, 'points': 0}
+
+    def compile_one(pi, oi, own_stderr=True):
         opt = job['options'][oi]
         fn, dbg_parser, dbg_generator = opt[:3]
         fail_at = opt[3] if len(opt) > 3 else None
@@ -95,7 +97,8 @@ def main():
                 outf = FailingStream()
         err = io.StringIO()
         real_err = sys.stderr
-        sys.stderr = err            # ANTLR prints recoverable syntax errors there
+        if own_stderr:
+            sys.stderr = err            # ANTLR prints recoverable syntax errors there
         try:
             try:
                 args = () if ctxkind == 'default' else (Ctx,)
@@ -112,11 +115,43 @@ def main():
             except Exception as e:
                 text, outcome = '', 'EXC:' + type(e).__name__
         finally:
+            if own_stderr:
+                sys.stderr = real_err
+        return [pi, oi, outcome, text, Ctx.outf.getvalue(), err.getvalue()]
+
+    for entry in job['history']:
+        if entry[0] != 'par':
+            out.append(compile_one(entry[0], entry[1]))
+            continue
+        # two compilations at the same time, one thread each, pre-empted at seeded source lines of the package
+        # (baton passing: exactly one thread runs at a time; the ANTLR runtime runs unpre-empted)
+        sys.path.insert(0, os.path.dirname(os.path.dirname(os.path.abspath(__file__))))
+        from ypsim.sched import Baton
+        import glob
+        pkg = os.path.dirname(os.path.abspath(C.__file__))
+        files = [f for f in glob.glob(os.path.join(pkg, '*.py')) if os.path.basename(f) not in ('prologParser.py', 'prologLexer.py', 'prologVisitor.py', 'prologListener.py')]
+        _, e1, e2, sched_seed = entry
+        res = [None, None]
+        baton = Baton(2, files, seed=sched_seed, p=0.01, p_by_file={C.__file__: 0.3, os.path.abspath(C.__file__): 0.3}, max_points=2000000)
+        shared_err = io.StringIO()
+        real_err = sys.stderr
+        sys.stderr = shared_err
+        try:
+            ok = baton.run([lambda: res.__setitem__(0, compile_one(e1[0], e1[1], False)), lambda: res.__setitem__(1, compile_one(e2[0], e2[1], False))],
+                           first=sched_seed % 2, wall_cap=80.0)
+        finally:
             sys.stderr = real_err
-        out.append([pi, oi, outcome, text, Ctx.outf.getvalue(), err.getvalue()])
+        if not ok or baton.errors or None in res:
+            raise SystemExit('thread pair stalled or failed: %r' % (baton.errors,))
+        stats['par_pairs'] += 1
+        stats['preemptions'] += baton.fired
+        stats['points'] += baton.points
+        stats['preemptions_in_compiler_py'] += baton.in_file.get('compiler.py', 0)
+        for r in res:
+            out.append(r + ['par'])
     os.chdir('/')
     shutil.rmtree(workdir, ignore_errors=True)
-    sys.stdout.write(json.dumps({'hashseed': os.environ.get('PYTHONHASHSEED'), 'out': out}))
+    sys.stdout.write(json.dumps({'hashseed': os.environ.get('PYTHONHASHSEED'), 'out': out, 'stats': stats}))
 
 
 if __name__ == '__main__':
